@@ -330,6 +330,86 @@ def generate(name, override=None):
     return {"info": info, "obs": obs, "engine": eng}
 
 
+class _ObInfo:
+    def __init__(self, name, kind, line):
+        self.name, self.kind, self.line = name, kind, line
+
+
+class _EngInfo:
+    def __init__(self, pack):
+        self.lemmas_used = set(pack.get("lemmas", []))
+
+
+GEN_LIMIT_S = int(os.environ.get("PYVC_GEN_LIMIT_S", "600"))
+
+
+def _gen_child(name, override, path):
+    """child process: generate the VCs of one function (or one canary variant) and dump them as SMT-LIB text"""
+    import pickle
+    try:
+        g = generate(name, override=override)
+        eng = g["engine"]
+        out = {"info": g["info"], "assumptions": sorted(eng.assumptions_used), "lemmas": sorted(getattr(eng, "lemmas_used", set())),
+               "axiom_sets": [k for k, _ in eng.axioms],
+               "pre_smt2": to_smt2(eng.pre_pc, z3.BoolVal(False), eng.axioms),
+               "obs": [(o.name, to_smt2(o.hyps, o.goal, eng.axioms), o.kind, o.line) for o in g["obs"]]}
+    except LookupError as ex:
+        out = {"error": ("lookup", str(ex))}
+    except E.Unsupported as ex:
+        out = {"error": ("unsupported", str(ex))}
+    except Exception as ex:  # noqa
+        import traceback
+        out = {"error": ("crash", f"{ex!r} {traceback.format_exc()[-600:]}")}
+    with open(path, "wb") as f:
+        pickle.dump(out, f)
+
+
+def generate_all(jobs, nproc=8):
+    """VC generation of several functions / canary variants, each in a CHILD process under a wall-clock watchdog
+    (the engine calls z3 in-process for path feasibility; one such call was seen to spin for an hour past its
+    timeout): a generation that exceeds GEN_LIMIT_S is killed and retried once, then reported as an error."""
+    import multiprocessing as mp
+    import pickle
+    ctx = mp.get_context("fork")
+    out = {}
+    pending = [(n, l, ov, 0) for (n, l, ov) in jobs]
+    running = []
+    tmpd = tempfile.mkdtemp(prefix="pyvcgen")
+    try:
+        while pending or running:
+            while pending and len(running) < nproc:
+                n, l, ov, tries = pending.pop(0)
+                path = os.path.join(tmpd, f"g{len(out)}_{len(running)}_{tries}_{abs(hash((n, l))) % 10 ** 8}.pkl")
+                p = ctx.Process(target=_gen_child, args=(n, ov, path))
+                p.start()
+                running.append((p, time.time(), n, l, ov, tries, path))
+            time.sleep(0.05)
+            still = []
+            for (p, t0, n, l, ov, tries, path) in running:
+                if p.is_alive():
+                    if time.time() - t0 > GEN_LIMIT_S:
+                        p.kill()
+                        p.join()
+                        if tries == 0:
+                            pending.append((n, l, ov, 1))
+                        else:
+                            out[(n, l)] = {"error": ("crash", f"VC generation exceeded {GEN_LIMIT_S} s twice (killed)")}
+                    else:
+                        still.append((p, t0, n, l, ov, tries, path))
+                    continue
+                p.join()
+                try:
+                    with open(path, "rb") as f:
+                        out[(n, l)] = pickle.load(f)
+                except Exception as ex:  # noqa
+                    out[(n, l)] = {"error": ("crash", f"generation child died (exit {p.exitcode}): {ex!r}")}
+            running = still
+    finally:
+        import shutil
+        shutil.rmtree(tmpd, ignore_errors=True)
+    return out
+
+
 def verify(names, pid=None, canaries=False, lock=None):
     """Verify the named functions.  Returns the dict Run.add_proof expects."""
     load_sidecars()
@@ -337,6 +417,7 @@ def verify(names, pid=None, canaries=False, lock=None):
            "errors": []}
     tasks = []
     meta = []
+    jobs = []
     for name in names:
         c = REG.get(name)
         if c is None:
@@ -345,50 +426,62 @@ def verify(names, pid=None, canaries=False, lock=None):
         if c.trusted:
             res["assumptions"].append(f"TRUSTED contract (body not verified): {name} -- {c.note or ''}")
             continue
-        try:
-            g = generate(name)
-        except LookupError as ex:
-            res["undecided"].append(f"unattached: {name}: {ex}")
+        jobs.append((name, None, None))
+        if canaries and c.canaries:
+            for label, ov in c.canaries:
+                jobs.append((name, label, ov))
+    packs = generate_all(jobs)
+    for name in names:
+        c = REG.get(name)
+        if c is None or c.trusted:
+            continue
+        g = packs[(name, None)]
+        if g.get("error"):
+            kind_, msg = g["error"]
+            if kind_ == "lookup":
+                res["undecided"].append(f"unattached: {name}: {msg}")
+            elif kind_ == "unsupported":
+                res["undecided"].append(f"out of reach: {name}: {msg}")
+            else:
+                res["errors"].append(f"VC generation for {name}: {msg}")
+                continue
             res.setdefault("unreached", []).append(name)
             continue
-        except E.Unsupported as ex:
-            res["undecided"].append(f"out of reach: {name}: {ex}")
-            res.setdefault("unreached", []).append(name)
-            continue
-        eng = g["engine"]
+        eng = _EngInfo(g)
         res["functions"].append(g["info"])
-        for a in sorted(eng.assumptions_used):
-            s = f"{name}: {a}"
-            if s not in res["assumptions"]:
-                res["assumptions"].append(s)
+        for a_ in g["assumptions"]:
+            s_ = f"{name}: {a_}"
+            if s_ not in res["assumptions"]:
+                res["assumptions"].append(s_)
         if c.block:
             res["assumptions"].append(f"{name}: P-block '{c.block['anchor']}': entry condition ASSUMED (not proved from the "
                                       f"code before the block): " + " AND ".join(c.requires)[:600])
-        for k, _ in eng.axioms:
-            s = f"trusted axiom set {k}"
-            if s not in res["assumptions"]:
-                res["assumptions"].append(s)
+        for k in g["axiom_sets"]:
+            s_ = f"trusted axiom set {k}"
+            if s_ not in res["assumptions"]:
+                res["assumptions"].append(s_)
         if not g["obs"]:
             res["errors"].append(f"vacuity: {name} generated zero obligations")
         # vacuity: the precondition must be satisfiable
-        tasks.append((f"{name}#vacuity.requires-satisfiable", to_smt2(eng.pre_pc, z3.BoolVal(False), eng.axioms), [],
-                      4000))
+        tasks.append((f"{name}#vacuity.requires-satisfiable", g["pre_smt2"], [], 4000))
         meta.append(("vacuity", name, None, eng))
-        dead = [lbl for lbl, ok in eng.covers if not ok]
-        for ob in g["obs"]:
-            tasks.append((ob.name, to_smt2(ob.hyps, ob.goal, eng.axioms), []))
+        for (oname, smt2, okind, oline) in g["obs"]:
+            ob = _ObInfo(oname, okind, oline)
+            if okind == "reach":
+                tasks.append((oname, smt2, [], 5000))
+                meta.append(("reach", name, ob, eng))
+                continue
+            tasks.append((oname, smt2, []))
             meta.append(("ob", name, ob, eng))
-        if canaries and REG[name].canaries:
-            for label, ov in REG[name].canaries:
-                try:
-                    gc = generate(name, override=ov)
-                except Exception as ex:  # noqa
-                    res["errors"].append(f"canary {name}/{label}: {ex}")
+        if canaries and c.canaries:
+            for label, ov in c.canaries:
+                gc = packs[(name, label)]
+                if gc.get("error"):
+                    res["errors"].append(f"canary {name}/{label}: {gc['error'][1]}")
                     continue
-                ctasks = [(o.name, to_smt2(o.hyps, o.goal, gc["engine"].axioms), [], 4000) for o in gc["obs"]
-                          if o.kind in ("post", "raises")]
+                ctasks = [(on, sm, [], 4000) for (on, sm, ok, ol) in gc["obs"] if ok in ("post", "raises")]
                 tasks.append((f"{name}#canary.{label}", ctasks, []))
-                meta.append(("canary", name, label, gc["engine"]))
+                meta.append(("canary", name, label, _EngInfo(gc)))
     used = set()
     for mt in meta:
         used |= getattr(mt[3], "lemmas_used", set())
@@ -432,6 +525,22 @@ def verify(names, pid=None, canaries=False, lock=None):
                                        "detail": "precondition " + ("satisfiable (model found)" if r["status"] == "refuted"
                                                                     else "not refutable (solver: unknown)"),
                                        "backend": r["backend"], "time_s": r["time_s"], "kind": "vacuity"})
+            continue
+        if kind == "reach":
+            r = rr[0]
+            vac = r["status"] == "discharged"      # False was PROVED from the path's hypotheses
+            res["obligations"].append({"name": t[0], "function": fname, "status": "failed" if vac else "discharged",
+                                       "detail": "exit path " + ("has a contradictory context (every postcondition would "
+                                                                 "hold vacuously)" if vac else "not refutable"),
+                                       "backend": r["backend"], "time_s": r["time_s"],
+                                       "kind": "vacuity (exit path reachable)", "line": ob.line})
+            if vac:
+                cur = next((f["sha256"] for f in res["functions"] if f["name"] == fname), None)
+                locked = (lock or {}).get(fname, {}).get("sha256")
+                if lock is None or locked is None or locked == cur:
+                    res["errors"].append(f"vacuity: exit path of {fname} at line {ob.line} has a contradictory context")
+                else:
+                    res["undecided"].append(f"{t[0]}: exit path with a contradictory context on changed source")
             continue
         if kind == "canary":
             refuted = any(r["status"] == "refuted" for r in rr)
@@ -520,7 +629,7 @@ def make_violation(fname, obname, ob, r, pid):
     c = REG[fname]
     found = False
     detail = {"obligation": obname, "line": ob.line, "model": r["model"], "solver_status": r["status"],
-              "solver_reason": r.get("reason", "")[:400]}
+              "solver_reason": r.get("reason", "")[:400], "clause": clause_text(c, obname)}
     case = {"family": "proof", "function": fname}
     if c.replay is not None:
         try:
@@ -533,8 +642,28 @@ def make_violation(fname, obname, ob, r, pid):
     key = {"obligation": obname.split("~")[0], "function": fname}
     if found and isinstance(detail.get("native_replay"), dict) and "input" in detail["native_replay"]:
         key["input"] = detail["native_replay"]["input"]
-    return fw.Violation(obname.split("~")[0], key, detail, kind="proof",
-                        solver_output=str(r["model"])[:2000], found_input=found, case=case)
+    out = (f"status={r['status']} backend={r.get('backend')} time_s={r.get('time_s')} reason={r.get('reason', '')[:600]} "
+           f"model={str(r['model'])[:1500]}")
+    return fw.Violation(obname.split("~")[0], key, detail, kind="proof", solver_output=out, found_input=found, case=case)
+
+
+def clause_text(c, obname):
+    """the sidecar clause an obligation name refers to (post.ensuresN, pre.requiresN, loopK.invN, raises.X), if any"""
+    import re
+    tag = obname.split("#", 1)[1].split("~")[0].split("@")[0] if "#" in obname else ""
+    try:
+        m = re.fullmatch(r"post\.ensures(\d+)", tag)
+        if m:
+            return c.ensures[int(m.group(1))]
+        m = re.fullmatch(r"loop(\d+)\.inv(\d+)\.(preserved|established|entry)", tag)
+        if m:
+            return c.loops[int(m.group(1))]["inv"][int(m.group(2))]
+        m = re.fullmatch(r"raises\.(\w+).*", tag)
+        if m and c.raises:
+            return f"raises {m.group(1)} iff {c.raises.get(m.group(1))}"
+    except Exception:  # noqa
+        pass
+    return None
 
 
 def check_lock(res, lock):
@@ -571,9 +700,21 @@ def replay(d):
     for o in hit:
         print(f"{o['name']}: {o['status']} ({o['backend']}, {o['time_s']}s)", o.get("model", ""))
     if any(o["status"] == "refuted" for o in hit):
-        print("REPRODUCED on the current tree")
+        print("REPRODUCED on the current tree (refuted)")
         return 1
-    print("not reproduced (obligation discharged or no longer generated)")
+    bad = [o for o in hit if o["status"] != "discharged"]
+    lock = load_lock().get(fn.split("@")[0] if fn not in load_lock() else fn, {})
+    cur = next((f["sha256"] for f in r["functions"] if f["name"] == fn), None)
+    if bad and want in lock.get("discharged", []) and cur != lock.get("sha256"):
+        print("REPRODUCED on the current tree: the obligation is recorded as discharged for the unchanged source "
+              f"({lock.get('sha256')}) and is not discharged for the current source ({cur}): "
+              + "; ".join(f"{o['name']}: {o['status']} {o.get('reason', '')[:120]}" for o in bad))
+        return 1
+    if not hit:
+        print("not reproduced: the obligation is no longer generated (" + "; ".join(r["undecided"][:2]) + ")")
+        return 0
+    print("not reproduced (obligation discharged)" if not bad else
+          "not reproduced: not discharged, but the source is the locked one (undecided, not a violation)")
     return 0
 
 
